@@ -236,6 +236,11 @@ class SolveLoop:
         rho = s.fields["rho"]
         out.append(("self.rho>0", rho > 0))
         strat = s.fields["penalty_strategy"]
+        expected_cls = {"Constant": "ConstantPenalty", "DualNorm": "DualNormUpdate", "DualEquilibration": "DualEquilibration", "ParetoDecrease": "ParetoDecrease", "ObjectiveFilter": "ObjectivePenaltyFilter", "LagrangianFilter": "LagrangianPenaltyFilter"}[ctx.policy]
+        right = isinstance(strat, Obj) and strat.cls is not None and strat.cls.name == expected_cls
+        out.append(("penalty_policy_object_is_the_one_the_parameters_ask_for", right))
+        if not right:
+            return out
         if ctx.policy == "Constant":
             out.append(("constant:self.rho==params.rho", rho == P["rho"]))
         else:
@@ -319,7 +324,9 @@ class SolveLoop:
         for label, goal in self.inv(it, frame):
             if isinstance(goal, bool):
                 if not goal:
-                    raise AssertionError("havoc state violates structural invariant " + label)
+                    # a structural clause that the code under test does not even establish (already reported as a
+                    # failed obligation at establish): no arbitrary iteration to explore from an impossible state
+                    raise PathEnd()
                 continue
             p.assume(goal)
         ctx.head = dict(iterate=L["iterate"], lamb=L["lamb"], iteration=L["iteration"], accepted=L["accepted_steps"], rho=ctx.solver.fields["rho"],
@@ -596,7 +603,7 @@ def solve_unit(u, policy):
 
 
 def _mk(policy):
-    @unit(f"solve.{policy}", ["C12", "C02", "C15", "C16", "C07", "C06", "C08", "C01", "C05", "C10", "C09"], [SOLVE, "pygradflow.solver.Solver._compute_step", "pygradflow.solver.Solver.print_result", "pygradflow.display.print_problem_stats", "pygradflow.display.StateData.__init__", "pygradflow.display.StateData.__setitem__", "pygradflow.result.SolverResult.__init__", "pygradflow.solver.Solver._deriv_check", "pygradflow.penalty.penalty_strategy", "pygradflow.step.step_control.step_controller", "pygradflow.timer.Timer.__init__", "pygradflow.timer.SimpleTimer.elapsed", "pygradflow.iterate.Iterate.dist", "pygradflow.util.norm_mult"], config={"max_paths": 6000, "implicit_props": ["C06"]})
+    @unit(f"solve.{policy}", ["C12", "C02", "C15", "C16", "C07", "C06", "C08", "C01", "C05", "C10", "C09"], [SOLVE, "pygradflow.solver.Solver._compute_step", "pygradflow.solver.Solver.print_result", "pygradflow.display.print_problem_stats", "pygradflow.display.StateData.__init__", "pygradflow.display.StateData.__setitem__", "pygradflow.result.SolverResult.__init__", "pygradflow.solver.Solver._deriv_check", "pygradflow.penalty.penalty_strategy", "pygradflow.step.step_control.step_controller", "pygradflow.timer.Timer.__init__", "pygradflow.timer.SimpleTimer.elapsed", "pygradflow.iterate.Iterate.dist", "pygradflow.util.norm_mult"], config={"max_paths": 6000, "implicit_props": ["C06"], "timeout_ms": 30000})
     def _u(u, policy=policy):
         solve_unit(u, policy)
 
